@@ -1288,7 +1288,7 @@ func (i *BigInt) BitwiseAndNotInt(other Value) Value {
 
 func (i *BigInt) BitwiseAndNotSmallInt(other SmallInt) Value {
 	oBigInt := big.NewInt(int64(other))
-	oBigInt.And(i.ToGoBigInt(), oBigInt)
+	oBigInt.AndNot(i.ToGoBigInt(), oBigInt)
 	result := ToElkBigInt(oBigInt)
 	if result.IsSmallInt() {
 		return result.ToSmallInt().ToValue()
